@@ -88,9 +88,12 @@ KIND_NAME = {
     "rw": "c13.rw", "rec": "c13.rec", "rec_read": "c13.rec_read", "pure_region": "c13.pure_region",
     "sympure": "c13.sympure", "sym_region": "c13.sym_region", "termpure": "c13.termpure",
     "unknown_region": "test.op",
+    # unregistered operations (`"unknown.op"(…)[^bb…]` parsed with allow_unregistered): nothing is known
+    # about them; `unregterm` ends a block and carries successors (a branch of an unknown dialect)
+    "unreg": "builtin.unregistered", "unregterm": "builtin.unregistered",
 }
 REGION_KINDS = ("rec", "rec_read", "pure_region", "sym_region", "unknown_region")
-TERM_KINDS = ("term", "termpure")
+TERM_KINDS = ("term", "termpure", "unregterm")
 
 # --------------------------------------------------------------------------------------------
 # ORACLE TABLE (independent of xdsl.traits): name -> (is_terminator, is_symbol, effect class, recursive)
@@ -121,6 +124,9 @@ ORACLE: dict[str, tuple[bool, bool, str, bool]] = {
     "c13.sympure": (False, True, "pure", False),
     "c13.sym_region": (False, True, "unknown", False),
     "c13.termpure": (True, False, "pure", False),
+    # an operation of an unknown dialect: may do anything (and, as the last operation of a block, may
+    # branch to each of its successors)
+    "builtin.unregistered": (False, False, "unknown", False),
     # stream A
     "func.func": (False, True, "unknown", False),
     "func.call": (False, False, "unknown", False),      # external calls log an effect; calls may do anything
@@ -187,7 +193,10 @@ def build_spec(top: list[dict]) -> Any:
                     for x in mk_block_ops(bspec, blocks):
                         blk.add_op(x)
                 regions.append(Region(blocks))
-            cls = by_name[KIND_NAME[o["k"]]]
+            if o["k"] in ("unreg", "unregterm"):
+                cls = builtin.UnregisteredOp.with_name("unknown.br" if o["k"] == "unregterm" else "unknown.op")
+            else:
+                cls = by_name[KIND_NAME[o["k"]]]
             props = {}
             if o["k"] in ("sym", "sympure", "sym_region"):
                 nsym[0] += 1
@@ -313,8 +322,10 @@ class Snap:
             while todo:
                 b = todo.pop()
                 last = self.blocks[b]["last"]
-                if last is None or not oracle_class(self.ops[last]["name"])[0]:
+                if last is None:
                     continue
+                # control may leave a block through whatever operation ends it: the successors of the
+                # last operation are followed whether or not that operation is a known terminator
                 for s in self.ops[last]["succ"]:
                     if s in self.reach and not self.reach[s]:
                         self.reach[s] = True
@@ -497,10 +508,20 @@ def eff_tokens(op: Any, num: Numbering) -> tuple[list[str], bool]:
 
 
 def tree_tokens(module: Any, num: Numbering) -> list[str]:
+    from xdsl.dialects.builtin import UnregisteredOp
     from xdsl.ir import OpResult
     from xdsl.traits import IsTerminator, SymbolOpInterface
 
     out: list[str] = []
+
+    def is_term(o: Any) -> bool:
+        # The model has ONE terminator flag: it guards `would_be_trivially_dead` and decides whether
+        # the successors of a block's last operation are followed.  For an unregistered operation the
+        # code answers False to the first question and True to the second; the flag is True for it,
+        # which is the same for `would_be_trivially_dead` since its effects are unknown (`U`).
+        if isinstance(o, UnregisteredOp):
+            return True
+        return o.has_trait(IsTerminator, value_if_unregistered=False)
 
     def region(r: Any) -> None:
         blist = list(r.blocks)
@@ -525,7 +546,7 @@ def tree_tokens(module: Any, num: Numbering) -> list[str]:
                         raise Unsupported("successor outside the region")
                     succs.append(str(pos[id(s)]))
                 out.extend(["O", str(num.op[id(o)]), str(len(operands)), *operands,
-                            "1" if o.has_trait(IsTerminator, value_if_unregistered=False) else "0",
+                            "1" if is_term(o) else "0",
                             "1" if o.has_trait(SymbolOpInterface, value_if_unregistered=False) else "0",
                             *eff, "1" if rec else "0", str(len(succs)), *succs, str(len(o.regions))])
                 for rr in o.regions:
